@@ -95,6 +95,9 @@ def run(rep: Report) -> None:
                         detail = "" if ok else f"queue at the maximal flow is {nz.show(at_bound)[:120]}, not 0"
                 rep.check(ok, "queue-nonnegative", inst0, sq.where, detail, key=f"queue|{impl}|{prim}|{typ}")
     rep.floor("flow laws analysed", n, 8)
+    from .. import ctor
+
+    ctor.check(rep, groups=("origin",))
 
     # the laws are the ones the element layer uses, with the origin's own variables
     cks = [ck for ck in wire_results(rep, "base") if ck.cfg.has_queue()]
